@@ -28,7 +28,7 @@
 //!   {"k":"seq","xs":[NODE..]} | {"k":"par","xs":[NODE..]} | {"k":"new","s":"$s","x":NODE} | {"k":"null"}
 //!   {"k":"call","p":"A","f":"f3","v":"a","s":"$s"}     (call "@A" ("s" "f3") [] $s), the service returns "a"
 //!   {"k":"ap","v":"x","s":"$s"}                        (ap "x" $s)
-//!   {"k":"canon","p":"P","s":"$s","id":2}              (seq (canon "@P" $s #cn2) (call "@P" ("s" "see2") [#cn2]))
+//!   {"k":"canon","p":"P","s":"$s","id":2}              (seq (canon "@P" $s #cn2) (call "@P" ("s" "see2") [#cn2]))   ("see":false: the canon alone)
 //!   {"k":"gate","p":"P","id":1}                        (call "@P" ("s" "gate1") [] g1)
 //!   {"k":"fold","s":"$s","id":1,"p":"P","guards":[{"m":"a","v":"c","s":"$s"}..],"pre":bool,"visit":bool,"last":bool}
 //!        (fold $s it1 (seq (xor (match it1 "a" (ap "c" $s)) (null)) .. (seq (call "@P" ("s" "pre1") [it1])
@@ -59,7 +59,7 @@ enum Kind {
     Null,
     Call { p: String, f: String, v: String, s: String },
     Ap { v: String, s: String },
-    Canon { p: String, s: String, cid: u64 },
+    Canon { p: String, s: String, cid: u64, see: bool },
     Gate { p: String, gid: u64 },
     Fold { s: String, fid: u64, p: String, guards: Vec<Guard>, pre: bool, visit: bool, last: bool },
 }
@@ -93,7 +93,7 @@ fn parse_node(j: &J, next_id: &mut usize) -> Result<Node, String> {
         "null" => Kind::Null,
         "call" => Kind::Call { p: st(j, "p")?, f: st(j, "f")?, v: st(j, "v")?, s: st(j, "s")? },
         "ap" => Kind::Ap { v: st(j, "v")?, s: st(j, "s")? },
-        "canon" => Kind::Canon { p: st(j, "p")?, s: st(j, "s")?, cid: j["id"].as_u64().ok_or("canon id")? },
+        "canon" => Kind::Canon { p: st(j, "p")?, s: st(j, "s")?, cid: j["id"].as_u64().ok_or("canon id")?, see: j["see"].as_bool().unwrap_or(true) },
         "gate" => Kind::Gate { p: st(j, "p")?, gid: j["id"].as_u64().ok_or("gate id")? },
         "fold" => {
             let mut guards = vec![];
@@ -136,8 +136,12 @@ fn render(n: &Node) -> String {
         Kind::Null => "(null)".into(),
         Kind::Call { p, f, s, .. } => format!("(call \"@{}\" (\"s\" \"{}\") [] {})", p, f, s),
         Kind::Ap { v, s } => format!("(ap {} {})", lit(v), s),
-        Kind::Canon { p, s, cid } => {
-            format!("(seq (canon \"@{p}\" {s} #cn{cid}) (call \"@{p}\" (\"s\" \"see{cid}\") [#cn{cid}]))", p = p, s = s, cid = cid)
+        Kind::Canon { p, s, cid, see } => {
+            if *see {
+                format!("(seq (canon \"@{p}\" {s} #cn{cid}) (call \"@{p}\" (\"s\" \"see{cid}\") [#cn{cid}]))", p = p, s = s, cid = cid)
+            } else {
+                format!("(canon \"@{p}\" {s} #cn{cid})", p = p, s = s, cid = cid)
+            }
         }
         Kind::Gate { p, gid } => format!("(call \"@{}\" (\"s\" \"gate{}\") [] g{})", p, gid, gid),
         Kind::Fold { s, fid, p, guards, pre, visit, last } => {
@@ -383,7 +387,7 @@ impl<'a> Reader<'a> {
                 let id = self.ident(n.id, None);
                 self.read_call(pos, end, id, None)
             }
-            Kind::Canon { s, cid, .. } => {
+            Kind::Canon { s, cid, see, .. } => {
                 if pos >= end {
                     return Ok(pos);
                 }
@@ -396,6 +400,9 @@ impl<'a> Reader<'a> {
                     }
                     ExecutedState::Canon(CanonResult::Executed(r)) => {
                         self.push(pos, id, ItemKind::Canon { inst, result: Some(r.get_inner().to_string()), canon_id: *cid });
+                        if !*see {
+                            return Ok(pos + 1);
+                        }
                         let see = self.names.get(Ident::InFold(n.id, self.ctx.map(|c| c.1).unwrap_or(u32::MAX), 300000));
                         self.read_call(pos + 1, end, see, None)
                     }
